@@ -186,5 +186,197 @@ theorem concatStreamS_eq_of_posOK (final : Bool) (cs : List SResult) (hp : ∀ c
     exact colsLe_mono _ _ (le_sumText cs c hc) _ (posOK_bounds c (hp c hc).1 (hp c hc).2).1
   · exact sumCols_le cs (fun c hc => (posOK_bounds c (hp c hc).1 (hp c hc).2).2)
 
+
+/-! ## the `u32` line / column bookkeeping of ConcatSource cannot overflow -/
+
+theorem concatEvS_offs (final : Bool) (st : CSt) (e : Ev) :
+    (concatEvS final st e).1.lineOff = st.lineOff ∧ (concatEvS final st e).1.colOff = st.colOff := by
+  cases e with
+  | chunk t m => simp only [concatEvS]; exact ⟨trivial, trivial⟩
+  | source i s c => simp only [concatEvS, concatEv]; exact ⟨trivial, trivial⟩
+  | name i n => simp only [concatEvS, concatEv]; exact ⟨trivial, trivial⟩
+
+theorem concatEvsS_offs (final : Bool) : ∀ (evs : List Ev) (st : CSt),
+    (concatEvsS final st evs).1.lineOff = st.lineOff ∧ (concatEvsS final st evs).1.colOff = st.colOff := by
+  intro evs
+  induction evs with
+  | nil => intro st; exact ⟨rfl, rfl⟩
+  | cons e es ih =>
+    intro st
+    simp only [concatEvsS]
+    obtain ⟨a1, a2⟩ := ih (concatEvS final st e).1
+    obtain ⟨b1, b2⟩ := concatEvS_offs final st e
+    exact ⟨by rw [a1, b1], by rw [a2, b2]⟩
+
+theorem concatEvsC_eq (final : Bool) : ∀ (evs : List Ev) (st : CSt), (∀ t m, Ev.chunk t m ∈ evs → m.gl + st.lineOff < 2 ^ 32) →
+    st.lineOff + 1 < 2 ^ 32 → concatEvsC final st evs = some (concatEvsS final st evs) := by
+  intro evs
+  induction evs with
+  | nil => intro st _ _; rfl
+  | cons e es ih =>
+    intro st h h1
+    simp only [concatEvsC, concatEvsS]
+    have he : concatEvC final st e = some (concatEvS final st e) := by
+      cases e with
+      | chunk t m =>
+        have := h t m (by simp)
+        simp only [concatEvC]
+        rw [if_pos ⟨this, fun _ => h1⟩]
+      | source i s c => rfl
+      | name i n => rfl
+    rw [he]
+    simp only []
+    obtain ⟨b1, _⟩ := concatEvS_offs final st e
+    rw [ih _ (fun t m hm => by rw [b1]; exact h t m (List.mem_cons_of_mem _ hm)) (by rw [b1]; exact h1)]
+
+/-- what a child's stream satisfies when it reports positions inside a text of `n` bytes -/
+def ChildB (n : Nat) (c : SResult) : Prop :=
+  (∀ t m, Ev.chunk t m ∈ c.evs → m.gl ≤ n + 1 ∧ m.gc ≤ n) ∧ 1 ≤ c.info.line ∧ c.info.line ≤ n + 1 ∧ c.info.col ≤ n
+
+def sumLines : List SResult → Nat
+  | [] => 0
+  | c :: cs => (c.info.line - 1) + sumLines cs
+
+theorem concatChildC_eq (final : Bool) (N : Nat) (st : CSt) (c : SResult) (hc : ChildB N c)
+    (hl : st.lineOff + N + 2 < 2 ^ 32) (hcol : st.colOff + N < 2 ^ 32) :
+    concatChildC final st c = some (concatChildS final st c) := by
+  obtain ⟨h1, h2, h3, h4⟩ := hc
+  have e := concatEvsC_eq final c.evs { st with sim := [], nim := [], lastMappingLine := 0 }
+    (fun t m hm => by have := (h1 t m hm).1; simp only []; omega) (by simp only []; omega)
+  obtain ⟨o1, o2⟩ := concatEvsS_offs final c.evs { st with sim := [], nim := [], lastMappingLine := 0 }
+  simp only [] at o1 o2
+  unfold concatChildC concatChildS
+  simp only []
+  rw [e]
+  simp only []
+  rw [if_pos ⟨fun _ => by rw [o1]; omega, fun _ => by rw [o2]; omega, h2, by rw [o1]; omega⟩]
+
+theorem concatChildS_offs (final : Bool) (st : CSt) (c : SResult) :
+    (concatChildS final st c).1.lineOff = st.lineOff + (c.info.line - 1)
+    ∧ (concatChildS final st c).1.colOff = (if c.info.line > 1 then c.info.col else st.colOff + c.info.col) := by
+  obtain ⟨o1, o2⟩ := concatEvsS_offs final c.evs { st with sim := [], nim := [], lastMappingLine := 0 }
+  simp only [] at o1 o2
+  unfold concatChildS
+  simp only []
+  rw [o1, o2]
+  exact ⟨rfl, rfl⟩
+
+theorem concatGoC_eq (final : Bool) (N N' : Nat) (hN : N + N' + 2 < 2 ^ 32) : ∀ (cs : List SResult) (st : CSt),
+    (∀ c ∈ cs, ChildB N c) → st.lineOff + sumLines cs ≤ N' → st.colOff + sumCols cs ≤ N' →
+    concatGoC final st cs = some (concatGoS final st cs) ∧ (concatGoS final st cs).1.lineOff ≤ N' := by
+  intro cs
+  induction cs with
+  | nil => intro st _ hl _; exact ⟨rfl, by simpa [sumLines, concatGoS] using hl⟩
+  | cons c cs ih =>
+    intro st hc hl hco
+    simp only [sumLines, sumCols] at hl hco
+    simp only [concatGoC, concatGoS]
+    rw [concatChildC_eq final N st c (hc c (by simp)) (by omega) (by omega)]
+    simp only []
+    obtain ⟨o1, o2⟩ := concatChildS_offs final st c
+    obtain ⟨e, hle⟩ := ih (concatChildS final st c).1 (fun c' h' => hc c' (List.mem_cons_of_mem _ h'))
+      (by rw [o1]; omega) (by rw [o2]; split <;> omega)
+    rw [e]
+    exact ⟨rfl, hle⟩
+
+/-- **ConcatSource's `u32` line and column bookkeeping cannot overflow** when every child reports positions inside a text of at
+most `N` bytes and the children's end lines and end columns sum to at most `N'`, `N + N' + 2 < 2³²`: the checked stream is the
+saturating stream -/
+theorem concatStreamC_eq (final : Bool) (N N' : Nat) (hN : N + N' + 2 < 2 ^ 32) (cs : List SResult)
+    (hc : ∀ c ∈ cs, ChildB N c) (hl : sumLines cs ≤ N') (hco : sumCols cs ≤ N') :
+    concatStreamC final cs = some (concatStreamS final cs) := by
+  unfold concatStreamC concatStreamS
+  obtain ⟨e, hle⟩ := concatGoC_eq final N N' hN cs {} hc (by simpa using hl) (by simpa using hco)
+  rw [e]
+  simp only []
+  rw [if_pos (by omega)]
+
+theorem adv_line_bounds : ∀ (t : Text) (p : Pos), p.line ≤ (adv p t).line ∧ (adv p t).line ≤ p.line + t.length := by
+  intro t
+  induction t with
+  | nil => intro p; simp [adv]
+  | cons b bs ih =>
+    intro p
+    simp only [adv, List.length_cons]
+    split
+    · have := ih ⟨p.line + 1, 0⟩; simp only [] at this; omega
+    · have := ih ⟨p.line, p.col + 1⟩; simp only [] at this; omega
+
+theorem posOKT_linesLe : ∀ (evs : List Ev) (pre : Text), posOKT pre evs → evsTL evs = false →
+    ∀ t m, Ev.chunk t m ∈ evs → m.gl ≤ (pre ++ evsText evs).length + 1 := by
+  intro evs
+  induction evs with
+  | nil => intro pre _ _ t m h; cases h
+  | cons e es ih =>
+    intro pre hp hTL t m hm
+    have hTL' : evsTL es = false := by
+      simp only [evsTL, List.any_cons, Bool.or_eq_false_iff] at hTL; exact hTL.2
+    rw [evsText_cons, List.length_append, List.length_append]
+    cases e with
+    | chunk t' m' =>
+      cases t' with
+      | none => simp [evsTL, Ev.textless] at hTL
+      | some tx =>
+        simp only [posOKT] at hp
+        rcases List.mem_cons.1 hm with h | h
+        · cases h
+          have h1 := congrArg Pos.line hp.1
+          simp only [] at h1
+          rw [h1]
+          have := (adv_line_bounds pre startPos).2
+          have h0 : startPos.line = 1 := rfl
+          omega
+        · have := ih (pre ++ tx) hp.2 hTL' t m h
+          simp only [List.length_append, Ev.text] at this ⊢
+          omega
+    | source i s c =>
+      simp only [posOKT] at hp
+      rcases List.mem_cons.1 hm with h | h
+      · cases h
+      · have := ih pre hp hTL' t m h
+        simp only [List.length_append] at this
+        omega
+    | name i n =>
+      simp only [posOKT] at hp
+      rcases List.mem_cons.1 hm with h | h
+      · cases h
+      · have := ih pre hp hTL' t m h
+        simp only [List.length_append] at this
+        omega
+
+theorem posOK_childB (r : SResult) (hp : PosOK r) (hTL : evsTL r.evs = false) : ChildB (evsText r.evs).length r := by
+  obtain ⟨b1, b2⟩ := posOK_bounds r hp hTL
+  have hl := adv_line_bounds (evsText r.evs) startPos
+  have h0 : startPos.line = 1 := rfl
+  refine ⟨fun t m hm => ⟨by simpa using posOKT_linesLe r.evs [] hp.1 hTL t m hm, b1 t m hm⟩, ?_, ?_, b2⟩
+  · rw [hp.2]; omega
+  · rw [hp.2]; omega
+
+theorem childB_mono (a b : Nat) (h : a ≤ b) (c : SResult) (hc : ChildB a c) : ChildB b c := by
+  obtain ⟨h1, h2, h3, h4⟩ := hc
+  exact ⟨fun t m hm => ⟨by have := (h1 t m hm).1; omega, by have := (h1 t m hm).2; omega⟩, h2, by omega, by omega⟩
+
+theorem sumLines_le : ∀ (cs : List SResult), (∀ c ∈ cs, c.info.line ≤ (evsText c.evs).length + 1) → sumLines cs ≤ sumText cs := by
+  intro cs
+  induction cs with
+  | nil => intro _; exact Nat.le_refl _
+  | cons x xs ih =>
+    intro h
+    simp only [sumLines, sumText]
+    have := h x (by simp)
+    have := ih (fun c hc => h c (List.mem_cons_of_mem _ hc))
+    omega
+
+/-- **children that report true positions (C02), texts below 2 GiB in total: ConcatSource's checked stream — every `u32`
+addition and subtraction of its bookkeeping as a partial operation — succeeds and is the model's stream** -/
+theorem concatStreamC_eq_of_posOK (final : Bool) (cs : List SResult) (hp : ∀ c ∈ cs, PosOK c ∧ evsTL c.evs = false)
+    (hlen : 2 * sumText cs + 2 < 2 ^ 32) : concatStreamC final cs = some (concatStream final cs) := by
+  have hB : ∀ c ∈ cs, ChildB (evsText c.evs).length c := fun c hc => posOK_childB c (hp c hc).1 (hp c hc).2
+  rw [concatStreamC_eq final (sumText cs) (sumText cs) (by omega) cs
+    (fun c hc => childB_mono _ _ (le_sumText cs c hc) c (hB c hc))
+    (sumLines_le cs (fun c hc => (hB c hc).2.2.1))
+    (sumCols_le cs (fun c hc => (hB c hc).2.2.2))]
+  rw [concatStreamS_eq_of_posOK final cs hp (by omega)]
+
 end Chk
 end Rs
